@@ -1,0 +1,23 @@
+//! C22: revive a recycled entry with the internal identity. Upstream only has
+//! `internal_revive_uuid` under `cfg(test)`; this is the same three lines, so the
+//! harness can drive the real `revive_recycled` (which re-runs the pre-modify
+//! plugins, among them the SPN plugin).
+
+use crate::event::ReviveRecycledEvent;
+use crate::prelude::*;
+
+/// Same as the test-only `QueryServerWriteTransaction::internal_revive_uuid`.
+pub fn revive_uuid(
+    qs: &mut QueryServerWriteTransaction,
+    target_uuid: Uuid,
+) -> Result<(), OperationError> {
+    let filter = filter_rec!(f_eq(Attribute::Uuid, PartialValue::Uuid(target_uuid)));
+    let f_valid = filter
+        .validate(qs.get_schema())
+        .map_err(OperationError::SchemaViolation)?;
+    let re = ReviveRecycledEvent {
+        ident: Identity::from_internal(),
+        filter: f_valid,
+    };
+    qs.revive_recycled(&re)
+}
